@@ -287,7 +287,7 @@ def w_net(c0: int, c1: int, a: int, b: int, sticky: bool) -> str:
 
 def w_step(n0: int, slots: int, cmd: int, a: int, b: int, top_sticky: bool, lone: bool) -> str:
     """
-    pre: PARTITION is None or cmd == PARTITION
+    pre: PARTITION is None or (cmd == PARTITION[0] and n0 == PARTITION[1])
     pre: 0 <= n0 <= 3 and 0 <= slots < 120 and 0 <= cmd < 8 and 0 <= a < 3 and 0 <= b < 4
     post: _ == ''
     """
@@ -316,7 +316,7 @@ def obligations(tier):
     enc = K.PUT_FUNCS + K.LIST_FUNCS + K.RESTORE_FUNCS + K.RM_FUNCS + K.EMPTY_FUNCS
     from harness import kpair
     return kpair.obligations(tier) + [
-        CH('W_inductive_step', MOD, 'w_step' if tier == 'thorough' else 'w_step_q', timeout=1800, partitions=list(range(8)), engine='W', regime='selector',
+        CH('W_inductive_step', MOD, 'w_step' if tier == 'thorough' else 'w_step_q', timeout=3000, partitions=[(c, n) for c in range(8) for n in range(4)] if tier == 'thorough' else list(range(8)), engine='W', regime='selector',
            encodes=enc, stubs=K.STUBS,
            bounds='pre-state: 0..3 entries x 120 placements (dir, name, trash dir, date; quick: every third placement) ; 8 commands (put, restore, rm, empty, empty DAYS, put again, restore --overwrite onto an occupied destination, put of a directory that contains its trash directory) x 3 x 4 arguments (quick 3 x 2); .Trash sticky or absent (quick: sticky)'),
         CH('W_histories_len_5', MOD, 'w_hist', timeout=1800, partitions=[(c, 4 if tier == 'thorough' else 1) for c in range(6)], engine='W', regime='selector',
